@@ -449,6 +449,26 @@ def main(argv):
             p = write_replay(work, nrep, {"property": prop, "no_longer_checks": ["coqchk"], "detail": out[-3000:]})
             verdict_lines.append("VIOLATION property=%s replay=%s no-failing-input-found" % (prop, p))
 
+    # thorough: optional extraction-based volume path (bin/xcheck, notes/xcheck.md).  Extraction and
+    # the OCaml compiler are trusted only for "no failure found there": every violation it reports
+    # has been re-confirmed through vm_compute by bin/xcheck itself.
+    xcheck = None
+    if tier == "thorough" and cfg.get("xcheck") and not broken and not found:
+        xc, xout = sh([os.path.join(VERIF, "bin", "xcheck"), prop, "--scale", str(cfg["xcheck"].get("scale", 10)),
+                       "--seed", str(seed)], timeout=7200)
+        log.write("== xcheck rc=%d\n%s\n" % (xc, xout[-4000:]))
+        xl = [l for l in xout.splitlines() if l.startswith(("VIOLATION", "XCHECK-", "XOK"))]
+        xcheck = {"rc": xc, "lines": xl[-6:]}
+        if xc == 1:
+            rc = 1
+            vl = [l for l in xl if l.startswith("VIOLATION")]
+            if vl:
+                verdict_lines += vl
+            else:
+                nrep += 1
+                p = write_replay(work, nrep, {"property": prop, "no_longer_checks": ["xcheck"], "detail": xl})
+                verdict_lines.append("VIOLATION property=%s replay=%s no-failing-input-found" % (prop, p))
+
     for cls, idxs in sorted(known_seen.items()):
         print("KNOWN-FINDING: property=%s %s (%d cases, e.g. index %d)" % (prop, known[cls].get("what", cls), len(idxs), idxs[0]))
     for l in verdict_lines:
@@ -481,6 +501,8 @@ def main(argv):
     }
     if coqchk is not None:
         cov["coqchk"] = coqchk
+    if xcheck is not None:
+        cov["xcheck_volume_path"] = xcheck
     if search_info:
         cov["search"] = search_info
     ev = {"property_id": prop, "tier": tier, "seed": seed, "level": man.get("level", "proof"), "coverage": cov,
